@@ -39,3 +39,22 @@ meta("C01",
                            "rt:F": 1, "rt:G": 1, "rt:O": 1, "rt:U": 1, "rt:H": 1, "rt:#": 1,
                            "rt:custom": 1, "line_roundtrips": 2000}},
      set_samples=["rt_x_dt"])
+
+meta("C02",
+     rule="G3 histories (start document added in arbitrary order incl. forward references, then 4-20 (quick) / 4-60 (thorough) steps of add / rm by name / rm by instance / disconnect / rename / tag edits) over GFA1 and GFA2 pools with forced fan-out; the closed_symmetric walker runs after every outermost mutation; non-trivial = history with a cascading removal or a rename; distinct = hash of the step list",
+     budget={"quick": 25, "thorough": 400},
+     min_counts={"quick": {"invariant_evaluations": 1000, "op:rm": 100, "op:rename": 50, "cascading_removals": 50}})
+meta("C05",
+     rule="G3 legal histories over GFA1/GFA2 documents; after every successful step the written content is compared with the text model (canonical multiset) and, when the model text is closed, the full observation with that of a Gfa parsed afresh from the model text; non-trivial = history with a cascading removal or a rename",
+     budget={"quick": 30, "thorough": 400},
+     min_counts={"quick": {"text_comparisons": 2000, "fresh_parse_comparisons": 1000, "cascading_removals": 50, "op:rename": 50}})
+meta("C08",
+     rule="G3 histories in which ~55% of the steps are calls the text model / grammar marks as failing (duplicate or clashing identifiers for every pair of record types, renames to identifiers in use, version conflicts, malformed lines, conflicting header values, edits of reference fields of connected lines, rm of unknown ids) interleaved with successful steps; full public observation compared before/after each raising call; non-trivial = history with >=1 raising call on a non-empty Gfa",
+     budget={"quick": 25, "thorough": 400},
+     min_counts={"quick": {"failing_calls": 1500}},
+     set_samples=["failure_classes"])
+meta("C09",
+     rule="G3 histories with ~45% identifier clashes (additions and renames of every identified record type to identifiers in use by the same or another type) and legal renames; unique_names walker after every outermost mutation; model comparison after renames; non-trivial = history with a cross-type clash or a rename",
+     budget={"quick": 25, "thorough": 400},
+     min_counts={"quick": {"invariant_evaluations": 1000, "failing_calls": 300, "op:rename": 50}},
+     set_samples=["clash_shapes"])
